@@ -50,6 +50,9 @@ pub enum Op {
     BinPair(BinOp, BinOp, u16, u16),
     /// subst(s1, f); subst(s2, f); subst(s1, f): first and third must be the same handle
     SubstAlt(u8, u8, u16),
+    /// DDDMP export of two pool entries into a buffer (bit 0: ascii, bit 1: version 3.0) and
+    /// import into the same manager: the imported handles must be the exported ones
+    DumpRound(u16, u16, u8),
 }
 
 #[derive(Clone, Debug, Serialize, Deserialize)]
@@ -100,6 +103,8 @@ pub struct Stats {
     pub digest: u64,
     pub binpairs: u64,
     pub subst_alt: u64,
+    pub dump_rounds: u64,
+    pub dump_rounds_after_event: u64,
 }
 
 pub struct Entry<F> {
@@ -572,6 +577,36 @@ impl<K: BoolKind> Hist<K> {
                     return Err("noncanonical: subst(s1,f) before and after subst(s2,f) give different handles".into());
                 }
             }
+            Op::DumpRound(a, b, flags) => {
+                record_last = false;
+                let (Some(ai), Some(bi)) = (self.get(*a), self.get(*b)) else { return Ok(()) };
+                let (fa, fb) = (self.pool[ai].f.clone(), self.pool[bi].f.clone());
+                let (ta, tb) = (self.pool[ai].t, self.pool[bi].t);
+                let old = self.pool[ai].epoch < self.epoch || self.pool[bi].epoch < self.epoch;
+                let settings = crate::kinds::DdSettings { ascii: flags & 1 != 0, v3: flags & 2 != 0, strict: false, diagram_name: String::new() };
+                let (file, res) = K::dddmp_export(&self.mr, &settings, &[&fa, &fb], None);
+                if let Err(e) = res {
+                    return Err(format!("export-error: DDDMP export of two live handles failed: {e}"));
+                }
+                let (_, imported) = K::dddmp_import(&self.mr, &file, None).map_err(|e| format!("own-export-rejected: importer rejects the exporter's file: {e}"))?;
+                if imported.len() != 2 {
+                    return Err(format!("roots: exported 2 roots, imported {}", imported.len()));
+                }
+                self.stats.dump_rounds += 1;
+                if old {
+                    self.stats.dump_rounds_after_event += 1;
+                }
+                let mut it = imported.into_iter();
+                for (orig, t) in [(fa, ta), (fb, tb)] {
+                    let r = it.next().unwrap();
+                    self.stats.comparisons += 1;
+                    if r != orig {
+                        let got = K::table(&r, n);
+                        return Err(if got == t { format!("noncanonical: DDDMP import of the exported {t:?} into the same manager gives a handle != the exported one") } else { format!("result-table: DDDMP export + import of {t:?} gives {got:?}") });
+                    }
+                    self.push(r, t, "dddmp round trip")?;
+                }
+            }
             Op::Repeat => {
                 record_last = false;
                 let Some(last) = self.last.clone() else { return Ok(()) };
@@ -801,6 +836,7 @@ pub fn op_strategy(w: Weights) -> BoxedStrategy<Op> {
         (w.repeat).max(1) => Just(Op::Repeat),
         (w.repeat).max(1) => (binop_strategy(), binop_strategy(), s(), s()).prop_map(|(o1, o2, a, b)| Op::BinPair(o1, o2, a, b)),
         (w.subst / 2).max(1) => (0u8..4, 0u8..4, s()).prop_map(|(s1, s2, a)| Op::SubstAlt(s1, s2, a)),
+        (w.rebuild / 2).max(1) => (s(), s(), 0u8..4).prop_map(|(a, b, f)| Op::DumpRound(a, b, f)),
     ]
     .boxed()
 }
